@@ -79,7 +79,21 @@ def f_affinv : Family :=
     post := fun k o => mulEntry (k0 k) (outM (k0 k) o) (aff (k0 k)),
     spec := fun k j => delta (j / k0 k) (j % k0 k), allowed := fun k => [detE (k0 k - 1) (affLin (k0 k))] }
 
+/-! the same identities for the units traced with aligned-qualified types (`GLM_FORCE_DEFAULT_ALIGNED_GENTYPES` + `GLM_FORCE_INTRINSICS`,
+    unit suffix `A`): glm's `Aligned = true` generic templates (e.g. the 3×3 inverse by cross products) -/
+def f_detA : Family := { f_det with name := "detA", unit := "detA" }
+def f_inv_leftA : Family := { f_inv_left with name := "inv_leftA", unit := "invA" }
+def f_inv_rightA : Family := { f_inv_right with name := "inv_rightA", unit := "invA" }
+def f_invtrA : Family := { f_invtr with name := "invtrA", unit := "invtrA" }
+def f_divmmA : Family := { f_divmm with name := "divmmA", unit := "divmmA" }
+def f_asgdiv_mA : Family := { f_divmm with name := "asgdiv_mA", unit := "asgdiv_mA" }
+def f_divmvA : Family := { f_divmv with name := "divmvA", unit := "divmvA" }
+def f_divvmA : Family := { f_divvm with name := "divvmA", unit := "divvmA" }
+def f_adjugateA : Family := { f_adjugate with name := "adjugateA", unit := "adjugateA" }
+def f_affinvA : Family := { f_affinv with name := "affinvA", unit := "affinvA" }
+
 def families : List Family :=
-  [f_det, f_inv_left, f_inv_right, f_invtr, f_divmm, f_asgdiv_m, f_divmv, f_divvm, f_adjugate, f_affinv]
+  [f_det, f_inv_left, f_inv_right, f_invtr, f_divmm, f_asgdiv_m, f_divmv, f_divvm, f_adjugate, f_affinv,
+   f_detA, f_inv_leftA, f_inv_rightA, f_invtrA, f_divmmA, f_asgdiv_mA, f_divmvA, f_divvmA, f_adjugateA, f_affinvA]
 
 end Glm.Spec.C10
